@@ -27,9 +27,9 @@ type Clause struct {
 }
 
 type LoopSpec struct {
-	N         int
-	Header    string
-	Invs      []*Clause
+	N      int
+	Header string
+	Invs   []*Clause
 	// Complete ("complete [label]"): the loop is left only through its header
 	// (no break/return/goto out of the body is reachable).
 	Complete      bool
@@ -38,38 +38,38 @@ type LoopSpec struct {
 	// when e (over the results) holds, e.g. `unless result != nil`
 	CompleteUnless     Expr
 	CompleteUnlessText string
-	Decreases []Expr
-	DecText   string
-	DecWhen   Expr // optional guard (evaluated in the entry state): termination is claimed only under it
+	Decreases          []Expr
+	DecText            string
+	DecWhen            Expr // optional guard (evaluated in the entry state): termination is claimed only under it
 }
 
 type FuncContract struct {
-	Pkg       string // import path
-	Key       string // SSA-relative name: "(*Bounds).Extend", "NewBounds", "(Polygon).Points$1"
-	Props     []string
-	Mode      string
-	Requires  []*Clause
-	Ensures   []*Clause
-	Panics    []*Clause // conditions under which a panic is licensed
-	Modifies  []Expr
-	ModSet    bool // an explicit modifies clause was given
-	ModText   string
-	Loops     []*LoopSpec
-	Trusted   string // non-empty: body not verified; reason
-	Inline    bool
-	External  bool // contract lives in /verif/contracts/external
-	NoSafety  bool
-	Asserts   []*AssertSpec
-	TypeReqs  []TypeReq // static type facts required of arguments (decided by go/types)
+	Pkg      string // import path
+	Key      string // SSA-relative name: "(*Bounds).Extend", "NewBounds", "(Polygon).Points$1"
+	Props    []string
+	Mode     string
+	Requires []*Clause
+	Ensures  []*Clause
+	Panics   []*Clause // conditions under which a panic is licensed
+	Modifies []Expr
+	ModSet   bool // an explicit modifies clause was given
+	ModText  string
+	Loops    []*LoopSpec
+	Trusted  string // non-empty: body not verified; reason
+	Inline   bool
+	External bool // contract lives in /verif/contracts/external
+	NoSafety bool
+	Asserts  []*AssertSpec
+	TypeReqs []TypeReq // static type facts required of arguments (decided by go/types)
 	// PanicsWith (panics_with T1, T2): every explicit panic(v) raised by the function,
 	// directly or through callees, has one of these dynamic types (obligation at each
 	// panic site); used where a caller recovers and type-asserts the value.
 	PanicsWith []*TypeExpr
-	Defines   []*Clause // definitional abstractions: assumed at call sites, not proved (listed as assumptions)
-	Decreases []Expr
-	File      string
-	Line      int
-	Opts      map[string]string
+	Defines    []*Clause // definitional abstractions: assumed at call sites, not proved (listed as assumptions)
+	Decreases  []Expr
+	File       string
+	Line       int
+	Opts       map[string]string
 }
 
 // TypeReq: the static type of the value passed for Param must implement Iface.
@@ -83,10 +83,10 @@ type TypeReq struct {
 // AssertSpec: an obligation at a program point, identified by the source text
 // of a line (and the ordinal among lines with that text).
 type AssertSpec struct {
-	C      *Clause
-	Text   string
-	Ord    int
-	hits   int
+	C    *Clause
+	Text string
+	Ord  int
+	hits int
 	// Optional: the obligation exists only while the anchored statement exists
 	// (assert_if_present); used for "this statement is only admissible if ..."
 	Optional bool
@@ -101,7 +101,7 @@ type SpecFunc struct {
 	Name      string
 	Params    []Param
 	Ret       *TypeExpr
-	Body      Expr   // nil = uninterpreted
+	Body      Expr // nil = uninterpreted
 	Decreases Expr
 	Text      string
 	Rec       bool
@@ -134,13 +134,14 @@ type IfaceContract struct {
 }
 
 type Contracts struct {
-	Funcs   map[string]*FuncContract // key pkg+"::"+Key
-	Specs   map[string]*SpecFunc     // key pkg+"::"+name (and bare name for lookup fallback)
-	Lemmas  map[string]*Lemma
-	Ifaces  []*IfaceContract
-	FuncTys map[string]*FuncContract // named func type contracts: pkg::TypeName
-	Files   []string
-	order   []string
+	Funcs    map[string]*FuncContract // key pkg+"::"+Key
+	Specs    map[string]*SpecFunc     // key pkg+"::"+name (and bare name for lookup fallback)
+	Lemmas   map[string]*Lemma
+	Ifaces   []*IfaceContract
+	FuncTys  map[string]*FuncContract // named func type contracts: pkg::TypeName
+	Files    []string
+	order    []string
+	repoPkgs map[string]bool // import paths of the repository's own packages
 }
 
 func newContracts() *Contracts {
@@ -280,7 +281,10 @@ func (cs *Contracts) loadContractFile(path, importPath string, external bool) er
 			if err != nil {
 				return fmt.Errorf("%s:%d: %v", path, s.line, err)
 			}
-			curF = &FuncContract{Pkg: importPath, Key: key, File: path, Line: s.line, External: external, Opts: map[string]string{}}
+			// a contract in /verif/contracts/external is an assumed one, except when the file speaks
+			// about a package of the repository itself (generated reference material, e.g. the
+			// proj4js tables as the contract of package proj's initialiser): that is verified
+			curF = &FuncContract{Pkg: importPath, Key: key, File: path, Line: s.line, External: external && !cs.repoPkgs[importPath], Opts: map[string]string{}}
 			cs.Funcs[importPath+"::"+key] = curF
 		case "interface":
 			curLoop, curLemma = nil, nil
@@ -734,6 +738,10 @@ func loadAllContracts(repo string, pkgDirs map[string]string, extDir string) (*C
 				return nil, err
 			}
 		}
+	}
+	cs.repoPkgs = map[string]bool{}
+	for p := range pkgDirs {
+		cs.repoPkgs[p] = true
 	}
 	exts, _ := filepath.Glob(filepath.Join(extDir, "*.spec"))
 	sort.Strings(exts)
